@@ -31,10 +31,63 @@ case "$ID" in
   C13|C19|C20) RACE="-race" ;;
 esac
 export VERIF_RACE="$RACE"
-# harness go.sum = repo go.sum + harness-only deps
 cd "$HERE/harness" || exit 3
-if ! go build -tags verif $RACE -o "$BUILD/$id_lc" "./cmd/$id_lc" 2>"$BUILD/build.log"; then
+
+violation_file() { # $1 = class, $2 = text file with details
+  mkdir -p "$HERE/replays/$ID"
+  local W="$HERE/replays/$ID/$1_seed${VERIF_SEED}_${VERIF_TIER}.txt"
+  cp "$2" "$W"
+  echo "VIOLATION property=$ID replay=$W"
+  echo "  class=$1 detail=$(head -c 300 "$2" | tr '\n' ' ')"
+}
+
+# Checks that drive tars2go-generated code: build the generator from the working tree, generate
+# the hand-written IDL corpus, rebuild the struct registry from the tree, and inject both into the
+# harness module through a build overlay (nothing is written into /verif/harness).
+OVERLAY=""
+case "$ID" in
+  C01|C03|C04|C05|C06|C10)
+    if ! (cd "$VERIF_REPO/tars/tools/tars2go" && go build -o "$BUILD/tars2go" .) 2>"$BUILD/t2g-build.log"; then
+      cat "$BUILD/t2g-build.log" >&2; echo "BUILD-FAILED property=$ID (tars2go)" >&2; exit 3
+    fi
+    mkdir -p "$BUILD/gen"
+    GENARGS=()
+    for f in "$HERE"/idl/*.tars; do
+      if ! (cd "$BUILD/gen" && "$BUILD/tars2go" -outdir "$BUILD/gen" -module verif/gen -add-servant=false -without-trace=true "$f") >"$BUILD/t2g.log" 2>&1; then
+        violation_file "tars2go-rejects-valid-idl" "$BUILD/t2g.log"; exit 1
+      fi
+    done
+    TARS_LIST=$(ls "$VERIF_REPO"/tars/protocol/res/*.tars "$HERE"/idl/*.tars | tr '\n' ',' | sed 's/,$//')
+    first=1
+    for d in "$VERIF_REPO"/tars/protocol/res/*/; do
+      n=$(basename "$d")
+      a="${d%/}=github.com/TarsCloud/TarsGo/tars/protocol/res/$n"
+      [ $first = 1 ] && { a="$a,$TARS_LIST"; first=0; }
+      GENARGS+=("$a")
+    done
+    for d in "$BUILD"/gen/*/; do
+      [ -d "$d" ] || continue
+      GENARGS+=("${d%/}=verif/gen/$(basename "$d")")
+    done
+    go run ./cmd/genreg -out "$BUILD/registry_gen.go" "${GENARGS[@]}" || { echo "BUILD-FAILED property=$ID (genreg)" >&2; exit 3; }
+    {
+      echo '{"Replace": {'
+      echo "\"$HERE/harness/resreg/registry_gen.go\": \"$BUILD/registry_gen.go\""
+      for f in "$BUILD"/gen/*/*.go; do
+        rel="${f#$BUILD/gen/}"
+        echo ",\"$HERE/harness/gen/$rel\": \"$f\""
+      done
+      echo '}}'
+    } >"$BUILD/overlay.json"
+    OVERLAY="-overlay=$BUILD/overlay.json"
+    ;;
+esac
+
+if ! go build -tags verif $RACE $OVERLAY -o "$BUILD/$id_lc" "./cmd/$id_lc" 2>"$BUILD/build.log"; then
   cat "$BUILD/build.log" >&2
+  if [ -n "$OVERLAY" ] && grep -q "harness/gen/" "$BUILD/build.log"; then
+    violation_file "generated-code-does-not-compile" "$BUILD/build.log"; exit 1
+  fi
   echo "BUILD-FAILED property=$ID" >&2
   exit 3
 fi
